@@ -67,7 +67,7 @@ impl Scenario for ImeSequences {
         "ime_sequences"
     }
     fn quick_runs(&self, _f: &str) -> u64 {
-        40000
+        120000
     }
     fn chunk(&self) -> u64 {
         500
